@@ -145,12 +145,12 @@ theorem repo_panics_negative_index :
 
 /-- `nil-root-panics`: a typed-nil root is dereferenced (GetTo on the empty path, Reset, Copy, Length). -/
 theorem repo_panics_nil_root :
-    (getM GenCfg.repo exNode .nilPtr exVal []).isPanic = true ∧
-    cmpM GenCfg.repo exNode .nilPtr exVal [seg "L"] 1 (seg "3") = .panic ∧
-    (resetM GenCfg.repo exNode .nilPtr exVal).isPanic = true ∧
-    (copyM GenCfg.repo exNode .nilPtr exVal).isPanic = true ∧
-    lcM GenCfg.repo false exNode .nilPtr exVal [seg "L"] = .panic ∧
-    (setM GenCfg.repo exNode .ptrNilPtr exVal [seg "L"] (srcInt 5) true).isPanic = true := by
+    (getM GenCfg.original exNode .nilPtr exVal []).isPanic = true ∧
+    cmpM GenCfg.original exNode .nilPtr exVal [seg "L"] 1 (seg "3") = .panic ∧
+    (resetM GenCfg.original exNode .nilPtr exVal).isPanic = true ∧
+    (copyM GenCfg.original exNode .nilPtr exVal).isPanic = true ∧
+    lcM GenCfg.original false exNode .nilPtr exVal [seg "L"] = .panic ∧
+    (setM GenCfg.original exNode .ptrNilPtr exVal [seg "L"] (srcInt 5) true).isPanic = true := by
   decide
 
 /-- `lc-struct-stop-panics`: Length on a path that stops on the nested struct `I` indexes `path[1]`. -/
@@ -208,9 +208,9 @@ theorem repo_panics_deq_ptr_leaf_nil :
 compiler.go:400-401) — also next to an unrecognised left argument, since `*rp` is evaluated before
 `!leq || !req`; the repaired emitter refuses it (answer false). -/
 theorem repo_panics_deq_nil_ptrptr :
-    deqM {} exNode .nilPtrPtr .ptr exVal exVal = .panic ∧
-    deqM {} exNode .ptr .nilPtrPtr exVal exVal = .panic ∧
-    deqM {} exNode .foreign .nilPtrPtr exVal exVal = .panic ∧
+    deqM { cfg := GenCfg.original } exNode .nilPtrPtr .ptr exVal exVal = .panic ∧
+    deqM { cfg := GenCfg.original } exNode .ptr .nilPtrPtr exVal exVal = .panic ∧
+    deqM { cfg := GenCfg.original } exNode .foreign .nilPtrPtr exVal exVal = .panic ∧
     deqM { cfg := GenCfg.fixed } exNode .nilPtrPtr .ptr exVal exVal = .f ∧
     deqM { cfg := GenCfg.fixed } exNode .ptr .nilPtrPtr exVal exVal = .f ∧
     deqM { cfg := GenCfg.fixed } exNode .foreign .nilPtrPtr exVal exVal = .f := by
